@@ -431,57 +431,89 @@ def power_iter(ctx):
   cmpr = Comparer()
   for pad in (True, False):
     ev = evaluator(m, decide=_decider(padding=pad))
+    # the loop state: however many slots the code carries; roles are found by what each slot is updated to
+    rw = ev.run(fi)
+    ctx.evaluations += 1
+    if rw.op != 'tuple' or len(rw.args) != 2:
+      raise AnalysisError('power_iteration does not return (vector, value)')
+    w = [x for x in walk(rw) if x.op == 'while']
+    ctx.need('C01.PI', len(w), 1, 'while_loop in power_iteration')
+    w = w[0]
+    init = w.args[1]
+    if init.op == 'call':
+      init = init.args[1][0]
+    if init.op not in ('list', 'tuple') or not 4 <= len(init.args) <= 8:
+      raise AnalysisError('power_iteration: the initial loop state is not a tuple of 4..8 slots')
+    k = len(init.args)
     vals = closure_values(ev, body, ['matrix', 'error_tolerance', 'num_iters'])
-    names = ['i', 'v', 's', 's_v', 'run']
+    names = [f'x{j}' for j in range(k)]
     st = tup(*[sym('spec', x) for x in names])
     r = ev.run(body, args={'state': st})
     g, named = abstract(r, vals)
     e = {x: sym('spec', x) for x in names}
     e.update(named)
-    n = '(v / jnp.linalg.norm(v))'
-    Av = f'jnp.einsum("ij,j->i", matrix, {n})'
-    ray = f'jnp.einsum("i,i->", {n}, {Av})'
-    exp = spec_term(ev, f'(i + 1, {Av}, {ray}, {Av}, jnp.greater(jnp.abs({ray} - s), error_tolerance))', e)
-    if g.op != 'tuple' or len(g.args) != 5:
-      raise AnalysisError('power_iteration._iter_body does not return a 5-tuple')
-    for nm, gg, ee in zip(['count', 'next_v', 'rayleigh', 's_v', 'run_step'], g.args, exp.args):
-      ctx.ob('C01.PI', body.short, f'{nm}[pad={pad}]', cmpr.same(gg, ee),
-             f'{nm}: derived `{cmpr.fmt(gg)}` is not the documented `{cmpr.fmt(ee)}` '
-             '(eigenvalue estimate must be the Rayleigh quotient v^T A v of the normalised iterate)',
-             ctx.loc(body), sample=f'{nm}: Rayleigh quotient of normalised iterate')
+    if g.op != 'tuple' or len(g.args) != k:
+      raise AnalysisError(f'power_iteration._iter_body does not return the {k}-tuple it is started with')
+
+    def slot(src_of):
+      return [j for j in range(k) if cmpr.same(g.args[j], spec_term(ev, src_of(j), e))]
+    Av_of = lambda v: f'jnp.einsum("ij,j->i", matrix, ({v} / jnp.linalg.norm({v})))'
+    ray_of = lambda v: f'jnp.einsum("i,i->", ({v} / jnp.linalg.norm({v})), {Av_of(v)})'
+    cnt = slot(lambda j: f'x{j} + 1')
+    vs = slot(lambda j: Av_of(f'x{j}'))
+    ctx.ob('C01.PI', body.short, f'count[pad={pad}]', len(cnt) == 1, f'exactly one loop slot must count iterations (x + 1); found slots {cnt}', ctx.loc(body),
+           sample='count: i + 1')
+    # the iterate slot: next value A (v / |v|) of ITSELF (a second slot may carry a copy of the same product)
+    v_self = [j for j in vs]
+    ctx.ob('C01.PI', body.short, f'next_v[pad={pad}]', len(v_self) >= 1,
+           f'one loop slot must be updated to A (v / |v|) of itself; derived `{[cmpr.fmt(a)[:80] for a in g.args]}`', ctx.loc(body), sample='next_v: A v/|v|')
+    if not cnt or not v_self:
+      continue
+    jv = v_self[0]
+    copies = [j for j in range(k) if j != jv and cmpr.same(g.args[j], g.args[jv])]
+    rs = [j for j in range(k) if cmpr.same(g.args[j], spec_term(ev, ray_of(f'x{jv}'), e))]
+    ctx.ob('C01.PI', body.short, f'rayleigh[pad={pad}]', len(rs) == 1,
+           f'one loop slot must carry the Rayleigh quotient v^T A v of the normalised iterate; derived `{[cmpr.fmt(a)[:80] for a in g.args]}`', ctx.loc(body),
+           sample='rayleigh: Rayleigh quotient of normalised iterate')
+    if not rs:
+      continue
+    js = rs[0]
+    fl = [j for j in range(k) if cmpr.same(g.args[j], spec_term(ev, f'jnp.greater(jnp.abs({ray_of(f"x{jv}")} - x{js}), error_tolerance)', e))]
+    ctx.ob('C01.PI', body.short, f'run_step[pad={pad}]', len(fl) == 1,
+           f'one loop slot must be the keep-going flag |s_new - s| > error_tolerance; derived `{[cmpr.fmt(a)[:80] for a in g.args]}`', ctx.loc(body),
+           sample='run_step: |s_new - s| > tol')
+    other = [j for j in range(k) if j not in cnt + [jv, js] + fl + copies]
+    ctx.ob('C01.PI', body.short, f's_v[pad={pad}]', not other, f'loop slots {other} are none of (count, iterate, copy of the iterate, eigenvalue, flag)', ctx.loc(body),
+           sample='s_v: copy of A v/|v| or absent')
+    if not fl:
+      continue
     rc = ev.run(condf, args={'state': st})
     gc, named = abstract(rc, vals)
     ec = dict(e)
     ec.update(named)
     ctx.ob('C01.PI', condf.short, f'condition[pad={pad}]',
-           cmpr.same(gc, spec_term(ev, 'jnp.logical_and(i < num_iters, run)', ec)),
+           cmpr.same(gc, spec_term(ev, f'jnp.logical_and(x{cnt[0]} < num_iters, x{fl[0]})', ec)),
            f'loop condition `{cmpr.fmt(gc)}` is not (i < num_iters) and run_step', ctx.loc(condf),
            sample='i < num_iters and run_step')
     # whole function: returns (v/||v||, s_out) from the loop, start vector masked
-    rw = ev.run(fi)
-    ctx.evaluations += 1
-    if rw.op != 'tuple' or len(rw.args) != 2:
-      raise AnalysisError('power_iteration does not return (vector, value)')
     v_out, s_out = rw.args
-    w = [x for x in walk(rw) if x.op == 'while']
-    ctx.need('C01.PI', len(w), 1, 'while_loop in power_iteration')
-    w = w[0]
-    ok = s_out.op == 'sub' and s_out.args[0] is w and is_const(s_out.args[1], 2)
+    ok = s_out.op == 'sub' and s_out.args[0] is w and is_const(s_out.args[1], js)
     ctx.ob('C01.PI', fi.short, f'returned_eigenvalue[pad={pad}]', ok,
-           f'returned eigenvalue must be the loop-carried Rayleigh quotient (state slot 2); got `{cmpr.fmt(s_out)}`',
-           ctx.loc(fi), sample='s_out = loop_state[2]')
-    init = w.args[1]
-    if init.op == 'call':
-      init = init.args[1][0]
-    v0 = init.args[1] if init.op in ('list', 'tuple') and len(init.args) == 5 else None
-    okm = v0 is not None
+           f'returned eigenvalue must be the loop-carried Rayleigh quotient (state slot {js}); got `{cmpr.fmt(s_out)}`',
+           ctx.loc(fi), sample='s_out = loop_state[s]')
+    okv = cmpr.same(v_out, spec_term(ev, 'v / jnp.linalg.norm(v)', {'v': T('sub', w, const(jv))})) or \
+        any(cmpr.same(v_out, spec_term(ev, 'v / jnp.linalg.norm(v)', {'v': T('sub', w, const(j))})) for j in copies)
+    ctx.ob('C01.PI', fi.short, f'returned_vector[pad={pad}]', okv,
+           f'the returned vector must be the normalised loop-carried iterate; got `{cmpr.fmt(v_out)[:160]}`', ctx.loc(fi), sample='v_out / |v_out|')
+    v0 = init.args[jv]
+    okm = is_const(init.args[cnt[0]], 0) and is_const(init.args[fl[0]], True)
     if okm and pad:
       okm = 'padding_start' in dep_names(v0) and bool([c for c in walk(v0) if c.op == 'cmp' and c.args[0] == '<'])
     if okm:
-      rs = [c for c in walk(v0) if c.op == 'call' and c.args[0].op == 'attr' and c.args[0].args[1] == 'uniform']
-      okm = bool(rs)
+      rs_ = [c for c in walk(v0) if c.op == 'call' and c.args[0].op == 'attr' and c.args[0].args[1] == 'uniform']
+      okm = bool(rs_)
     ctx.ob('C01.PI', fi.short, f'start_vector[pad={pad}]', okm,
-           'start vector must be the seeded random vector, zeroed at and after padding_start', ctx.loc(fi),
+           'start vector must be the seeded random vector, zeroed at and after padding_start (count 0, flag True)', ctx.loc(fi),
            sample='v0 = seeded uniform * (arange < padding_start)')
 
 
